@@ -56,7 +56,7 @@ def _fit(job):
     n, pattern, vtype, trunc, seed = job
     rs = np.random.RandomState(seed)
     df = V.random_table(rs, n, pattern, nrow=1100 if seed % 53 == 7 else None)      # now and then a table of more than 1000 rows
-    if seed % 9 == 4 and pattern != 'exact-monotone':
+    if seed % 9 == 4 and pattern not in ('exact-monotone', 'near-tie'):
         # numeric tables come in every numeric type: small unsigned / signed integers (counts, codes, sensor readings), single precision
         lo, hi = float(df.to_numpy().min()), float(df.to_numpy().max())
         kind = ('uint8', 'uint16', 'int8', 'float32')[(seed // 9) % 4]
@@ -148,6 +148,9 @@ def run(ctx):
     for i, n in enumerate((2, 3, 4, 5, 6) if quick else (2, 2, 3, 3, 4, 4, 5, 5, 6, 6, 7)):
         for vt in ('center', 'direct', 'regular'):
             fits.append((n, 'exact-monotone', vt, 1, ctx.seed * 104729 + 5000 + i))
+    # tables of 1100 rows in which two pairs of columns differ in their Kendall tau by one pair of rows: the heavier one belongs to the first regular tree
+    for i, n in enumerate((3, 4) if quick else (3, 3, 4, 4, 5)):
+        fits.append((n, 'near-tie', 'regular', 1 + i % 2, ctx.seed * 104729 + 7000 + i))
     with Pool(16) as pool:
         log = pool.map(_drive, jobs, chunksize=8) + pool.map(_fit, fits, chunksize=4)
     wd = T.workdir()
